@@ -195,7 +195,17 @@ def check_arm_derived_fields(ctx, F, c):
                     continue            # objects (policies, estimators) are tracked by R8.1 through their own fields
                 from_dict = {l for l in dep_locations(eng, v.deps) if l in armdicts}
                 from_card = bool(cards & set(v.deps))
-                if from_dict or from_card:
+                # only values with one entry per arm matter here (sequences / arrays built from the dictionary's
+                # entries, or sized by the number of arms); a scalar aggregate such as a total has no arm baked in
+                vn = getattr(ev.node, "value", None)
+                shaped = bool(v.refs) or vn is not None and any(
+                    isinstance(x, (ast.ListComp, ast.GeneratorExp, ast.DictComp, ast.SetComp)) or (
+                        isinstance(x, ast.Call) and isinstance(x.func, ast.Attribute) and
+                        x.func.attr in ("values", "keys", "items"))
+                    for x in ast.walk(vn))
+                if isinstance(ev.node, ast.AugAssign):
+                    shaped = False
+                if (from_dict or from_card) and shaped:
                     cand.setdefault((t.oid, t.ocls, t.field), (ev, label, sorted(x[1] for x in from_dict)))
     n = 0
     for (oid, ocls, fld), (ev, label0, srcs) in sorted(cand.items(), key=str):
@@ -487,6 +497,9 @@ def check(ctx):
         check_arm_derived_fields(ctx, F, c)
         nobj += check_one_arm_list(ctx, F, c)
         nout += check_outputs(ctx, F, c)
+    ctx.rule("R8.7", "the row partition of _parallel_predict covers every row exactly once")
+    from .c05 import check_partition_arithmetic
+    check_partition_arithmetic(ctx, "R8.7")
     check_unwrapping(ctx)
     check_row_outputs(ctx, F)
     ctx.floor("R8.1", "(arm-keyed dictionary, path) obligations", nk, 400)
